@@ -143,13 +143,13 @@ def run(tier, seed, replay=None):
             escalation["focus_grammars"] += len(gl)
             ecmds.append("C01_FOCUS=%s %s" % (fp, c))
         nfocus = len(ecmds)
-        big = 4 if tier == "quick" else 12
-        ecmds += ["%s zrep %d %d 6 | %s" % (h, 400 * big, seed * 100 + 1000 + i, runner) for i, h in enumerate((h1, h1, h2))]
-        ecmds += ["%s insens %d %d 4 | %s" % (h, 150 * big, seed * 100 + 1010 + i, runner) for i, h in enumerate((h1, h1, h2))]
-        ecmds += ["%s stack %d %d 6 | %s" % (h, 300 * big, seed * 100 + 1020 + i, runner) for i, h in enumerate((h1, h1, h2))]
-        ecmds += ["%s random %d %d 5 | %s" % (h, 120 * big, seed * 100 + 1030 + i, runner) for i, h in enumerate((h1, h1, h2))]
-        ecmds += ["%s skip %d %d 6 | %s" % (h1, 200 * big, seed * 100 + 1040, runner), "%s opt %d %d 5 | %s" % (h1, 200 * big, seed * 100 + 1041, runner),
-                  "%s wide %d %d 4 | %s" % (h1, 100 * big, seed * 100 + 1042, runner)]
+        big = 2 if tier == "quick" else 10
+        ecmds += ["%s zrep %d %d 6 | %s" % (h, 300 * big, seed * 100 + 1000 + i, runner) for i, h in enumerate((h1, h1, h2))]
+        ecmds += ["%s insens %d %d 4 | %s" % (h, 100 * big, seed * 100 + 1010 + i, runner) for i, h in enumerate((h1, h1, h2))]
+        ecmds += ["%s stack %d %d 6 | %s" % (h, 200 * big, seed * 100 + 1020 + i, runner) for i, h in enumerate((h1, h1, h2))]
+        ecmds += ["%s random %d %d 4 | %s" % (h, 100 * big, seed * 100 + 1030 + i, runner) for i, h in enumerate((h1, h1, h2))]
+        ecmds += ["%s skip %d %d 6 | %s" % (h1, 150 * big, seed * 100 + 1040, runner), "%s opt %d %d 4 | %s" % (h1, 150 * big, seed * 100 + 1041, runner),
+                  "%s wide %d %d 3 | %s" % (h1, 80 * big, seed * 100 + 1042, runner)]
         eouts = run_pipeline(ecmds, timeout=1500)
         for i, ((rc, out), c) in enumerate(zip(eouts, ecmds)):
             m, st, _ = parse_runner_output(out)
